@@ -97,7 +97,7 @@ Proof.
 Qed.
 
 Example seq_boxes_nonvacuous :
-  gen_boxes {| v_lookup_panics := false; v_inprog_unguarded := false |} inprog_module (fuel_for inprog_module) [] [(0%N,0%N)]
+  gen_boxes {| v_lookup_panics := false; v_inprog_unguarded := false; v_nil_panics := false |} inprog_module (fuel_for inprog_module) [] [(0%N,0%N)]
             [(0%N,2%N); (2%N,1%N); (1%N,2%N)]
   = Ok [(1%N,[2%N]); (2%N,[0%N;1%N])].
 Proof. vm_compute. reflexivity. Qed.
